@@ -42,6 +42,10 @@ class Prune(Exception):
 
 
 QUERY_TIMEOUT_MS = 10000
+# When set, float() of a symbolic rational whose denominator is not a power of two first pins the numerator (value choice)
+# and all-concrete float arithmetic is done in IEEE doubles, so rounding of concrete values is modelled faithfully.
+# Used by harnesses whose paths pin every position anyway (C08); the timing harnesses keep floats as exact reals.
+FLOAT_FAITHFUL = False
 
 
 # ------------------------------------------------------------------ path control
@@ -756,6 +760,9 @@ class _RatLike(_Num):
         if b is NotImplemented:
             return NotImplemented
         a = self._v
+        if FLOAT_FAITHFUL and not is_term(a) and not is_term(b) and (isinstance(self, FloatShim) or isinstance(o, (FloatShim, float))) \
+                and not isinstance(self, DecShim) and not isinstance(o, DecShim):
+            return self._ieee(o, op, rev)
         and_, bnd = self._nd if self._nd is not None else nd_of(self), nd_of(o)
         if rev:
             a, b = b, a
@@ -787,6 +794,14 @@ class _RatLike(_Num):
 
     def _result(self, v, nd, other):
         return self._mk(v, nd)
+
+    def _ieee(self, o, op, rev):
+        """all-concrete float arithmetic in IEEE doubles (FLOAT_FAITHFUL)"""
+        a, b = float(RealFraction(self._v)), float(RealFraction(term_of(o)))
+        if rev:
+            a, b = b, a
+        r = a + b if op == "+" else a - b if op == "-" else a * b if op == "*" else a / b
+        return FloatShim._make(_norm(RealFraction(r)))
 
     def __add__(self, o): return self._bin(o, "+")
     def __radd__(self, o): return self._bin(o, "+", True)
@@ -1096,6 +1111,12 @@ class FloatShim(_RatLike):
         else:
             v = term_of(x)
             nd = nd_of(x)
+            if FLOAT_FAITHFUL and not isinstance(x, (FloatShim, float)):
+                if is_term(v) and nd is not None and (nd[1] & (nd[1] - 1)) != 0:
+                    n = concretize(nd[0])           # pin the numerator: the conversion to a double is then exact IEEE
+                    v, nd = _norm(RealFraction(n, nd[1])), None
+                if not is_term(v):
+                    v = _norm(RealFraction(float(RealFraction(v))))
         self._v = v if is_term(v) else _norm(RealFraction(v))
         self._nd = nd if is_term(v) else None
         return self
